@@ -198,10 +198,19 @@ def verify_functions(prop, mod, res, tier):
             for name, h, g in sp_.lemma_obligations():
                 res.obls.append(solve.Obligation('%s/%s' % (prop, name), h, g, kind='lemma', function='speclib'))
 
-def run_mutants(prop, mod, res):
-    """must-fail self-test: in-memory mutants of the real functions; each must make its named obligation fail"""
+def run_mutants(prop, mod, res, tier='thorough'):
+    """must-fail self-test: in-memory mutants of the real functions; each must make its named obligation fail.
+    Quick tier: at most two mutants per function (the first two listed) -- re-verifying a many-path function once per mutant is what a
+    quick run spends most of its time on; the thorough tier applies all of them."""
     ms = list(getattr(mod, 'MUTANTS', []))
     mms = list(getattr(mod, 'MODULE_MUTANTS', []))
+    if tier == 'quick':
+        seen_ = {}; kept = []
+        for m in ms:
+            k_ = (m[0], m[1]); seen_[k_] = seen_.get(k_, 0) + 1
+            if seen_[k_] <= 2: kept.append(m)
+        if len(kept) < len(ms): res.notes.append('quick tier: %d of %d in-memory mutants applied (two per function); the thorough tier applies all' % (len(kept), len(ms)))
+        ms = kept
     if not ms and not mms: return
     with _pool() as ex:
         f1 = [ex.submit(_mutant_one, (prop, mod.__name__, m)) for m in ms]; f2 = [ex.submit(_module_mutant_one, (prop, mod.__name__, m)) for m in mms]
@@ -253,7 +262,7 @@ def main(argv=None):
     if hasattr(mod, 'covers'):
         for name, ok in mod.covers():
             if not ok: res.errors.append('cover failed (vacuous precondition?): ' + name)
-    t_m = time.time(); run_mutants(prop, mod, res); res.notes.append('phase seconds: contracts+discharge %.1f, self-test mutants %.1f' % (t_m - t0, time.time() - t_m))
+    t_m = time.time(); run_mutants(prop, mod, res, tier); res.notes.append('phase seconds: contracts+discharge %.1f, self-test mutants %.1f' % (t_m - t0, time.time() - t_m))
     # 3b. conformance of the executor with CPython on literal inputs (engine self-test; a disagreement makes the engine untrustworthy)
     try:
         from . import conformance
